@@ -427,6 +427,10 @@ func (e *Env) applyCore(op *Op) []string {
 		return e.applyForge(op)
 	case "transplant":
 		return e.applyTransplant(op)
+	case "rewrap":
+		return e.applyRewrap(op)
+	case "readd":
+		return e.applyReadd(op)
 	case "ftrunc":
 		// the file is cut short behind the library's back; later commands see what is left
 		if op.Lib {
@@ -466,6 +470,32 @@ func (e *Env) applyCore(op *Op) []string {
 			e.f = f
 		}
 		return []string{"ftrunc ok"}
+	case "fpatch":
+		// bytes of the image *file* changed behind the tools' back (CLI histories): same protocol
+		// lines as "patch" — raw edits, then whoever opens the file next sees them
+		if e.path == "" {
+			return []string{"noimg"}
+		}
+		e.Close()
+		b, err := os.ReadFile(e.path)
+		if err != nil {
+			return []string{"noimg"}
+		}
+		for _, p := range op.Sites {
+			if p.Off >= 0 && int(p.Off)+len(p.B) <= len(b) {
+				copy(b[p.Off:], p.B)
+			}
+		}
+		if err := os.WriteFile(e.path, b, 0o644); err != nil {
+			return []string{"res err:other"}
+		}
+		f, err := sif.LoadContainerFromPath(e.path, sif.OptLoadWithFlag(os.O_RDONLY))
+		if err != nil {
+			e.f = nil
+			return []string{"res " + errClass(err)}
+		}
+		e.f = f
+		return []string{"res ok"}
 	case "case":
 		return []string{fmt.Sprintf("case %d", op.Case)}
 	case "create":
@@ -1043,6 +1073,99 @@ func (e *Env) applyTransplant(op *Op) []string {
 	so := &Op{Kind: "add", T: TOpt{Kind: "det"}, DI: sigObjectDI(crafted, gid, 0, 1, op.FP, 0)}
 	obs := e.applyCore(so)
 	op.Raw = so.Lines()
+	return obs
+}
+
+// applyReadd: the bytes of object op.ID are fetched with GetData and kept (not copied), the object is
+// deleted with the given zero/compact options, and the kept bytes are added as a new object.  What
+// GetData returned is the caller's: it is what gets stored, whatever the delete did to the image.
+func (e *Env) applyReadd(op *Op) []string {
+	skip := func() []string {
+		op.Raw = []string{"nop"}
+		return []string{"nop"}
+	}
+	if e.f == nil {
+		return skip()
+	}
+	d, err := e.f.GetDescriptor(sif.WithID(op.ID))
+	if err != nil {
+		return skip()
+	}
+	kept, err := d.GetData()
+	if err != nil {
+		return skip()
+	}
+	orig := append([]byte(nil), kept...)
+	del := &Op{Kind: "del", Sel: Sel{Kind: "id", N: int64(op.ID)}, Zero: op.Zero, Compact: op.Compact, T: op.T}
+	obs := e.applyCore(del)
+	lines := del.Lines()
+	if len(obs) > 0 && obs[0] == "res ok" {
+		di, derr := sif.NewDescriptorInput(sif.DataGeneric, bytes.NewReader(kept), sif.OptObjectName("kept"))
+		if derr != nil {
+			return skip()
+		}
+		before := map[uint32]bool{}
+		e.f.WithDescriptors(func(x sif.Descriptor) bool { before[x.ID()] = true; return false })
+		aerr := e.f.AddObject(di, op.T.addOpt()...)
+		add := &Op{Kind: "add", T: op.T, DI: DI{DT: 0x4007, Fail: -1, Data: DataSpec{Lit: orig}, Opts: []DIOpt{{Kind: "name", B: []byte("kept")}}}}
+		if aerr == nil {
+			add.Now = e.f.ModifiedAt().Unix()
+		}
+		obs = append(obs, "res "+errClass(aerr), "spec ok")
+		lines = append(lines, add.Lines()...)
+		if aerr == nil {
+			// the object just added holds the bytes GetData had returned
+			var last sif.Descriptor
+			e.f.WithDescriptors(func(x sif.Descriptor) bool {
+				if !before[x.ID()] {
+					last = x
+				}
+				return false
+			})
+			if got, gerr := last.GetData(); gerr != nil || !bytes.Equal(got, orig) {
+				e.pending = append(e.pending, &Violation{Prop: "C14", Key: "C14:returned-data-changed", What: fmt.Sprintf("bytes returned by GetData for object %d (%d bytes) were kept across a delete (zero=%v compact=%v) and added as a new object: the new object holds other bytes (on the %s backend)", op.ID, len(orig), op.Zero, op.Compact, e.backend)})
+			}
+		}
+	}
+	op.Raw = lines
+	return obs
+}
+
+// applyRewrap: the DSSE signature of group S.Groups[0] is replaced by an envelope over the very
+// same (genuine) payload, signed by the same key S.DSSE[0], whose payloadType is op.Text — a type
+// that is *not* the SIF metadata type (however close it looks).
+func (e *Env) applyRewrap(op *Op) []string {
+	skip := func() []string {
+		op.Raw = []string{"nop"}
+		return []string{"nop"}
+	}
+	if e.f == nil || len(op.S.Groups) == 0 || len(op.S.DSSE) == 0 {
+		return skip()
+	}
+	gid := op.S.Groups[0]
+	var blob []byte
+	var sid uint32
+	e.f.WithDescriptors(func(d sif.Descriptor) bool {
+		if l, isG := d.LinkedID(); d.DataType() == sif.DataSignature && isG && l == gid && blob == nil {
+			if b, err := d.GetData(); err == nil && bytes.HasPrefix(bytes.TrimSpace(b), []byte("{")) {
+				blob, sid = b, d.ID()
+			}
+		}
+		return false
+	})
+	payload := oraclePayload(blob)
+	if blob == nil || payload == nil {
+		return skip()
+	}
+	nb := foreignPayloadBlob(op.S.DSSE[0], string(op.Text), payload)
+	if nb == nil {
+		return skip()
+	}
+	del := &Op{Kind: "del", Sel: Sel{Kind: "id", N: int64(sid)}, T: TOpt{Kind: "det"}}
+	obs := e.applyCore(del)
+	add := &Op{Kind: "add", T: TOpt{Kind: "det"}, DI: sigObjectDI(nb, gid, 0, 1, nil, 0)}
+	obs = append(obs, e.applyCore(add)...)
+	op.Raw = append(del.Lines(), add.Lines()...)
 	return obs
 }
 
